@@ -256,8 +256,9 @@ class ContainerMixin:
                 if c is True or (c is None and self.ctx.branch(same)):
                     return v
             return None
-        if target.total:
+        if target.total or self.ctx.spec_depth or self.ctx.quant_depth:
             # precondition of the contract: every key that is looked up is present
+            # (spec functions are total: the value under an absent key is unconstrained)
             return self.unpack(z3.Select(target.vals, self.pack(key, target.keys.et)), target.vt)
         present = self.contains(target.keys, key)
         if self.ctx.branch(present):
